@@ -33,12 +33,15 @@ from .. import core
 
 PROPERTY = 'C20'
 LEVEL = 'exploration'
-RULE = ('Hypothesis RuleBasedStateMachine histories (30 steps, thorough 50) against one WSGI application with five '
-        'layers (file/sqlite cache x meta-tile/single-tile creation from a WMS source, file cache from a tile source), '
+RULE = ('Hypothesis RuleBasedStateMachine histories (30 steps, thorough 50) against one WSGI application with nine '
+        'layers (file/sqlite cache x meta-tile/single-tile creation from a WMS source, file cache from a tile source, '
+        'file caches with link_single_color_images symlink (single and meta creation) and hardlink, file cache from a '
+        'tile source with bulk_meta_tiles + meta_size [2,2]), '
         'four tiles per layer, a generated server time zone (UTC, 4 west, 3 east) and season per history, a virtual clock (time.time of the cache modules, file mtimes set by the harness, '
         'refresh_before marker files): rules = GET through TMS / WMTS-KVP / WMTS-REST / KML / WMS-C with generated '
         'If-None-Match x If-Modified-Since (alone and together), direct rewrite through the cache object (ground '
-        'content of varying size / solid colours of equal size), removal, expiry + refresh through MapProxy, clock '
+        'content of varying size / four solid colours of equal size, which become links to shared single-colour files on '
+        'the link caches and are returned to after clock advances), removal, expiry + refresh through MapProxy, clock '
         'advance by 0.2 s .. 1 day (or none: same-second rewrites), upstream content switch and upstream HTTP 500 '
         'mapped to an uncached fill image. A history is non-trivial when an observed rewrite of a tile (stored bytes '
         'or timestamp changed) lies between two conditional requests for that tile; distinct = distinct step lists.')
@@ -67,6 +70,16 @@ ASSUMPTIONS = [
     'a 304 that rests on ETag equality alone is rejected when the same ETag string was issued earlier for this tile '
     'while it was stored with a different timestamp or size (validators derive from timestamp and size; rewrites that '
     'change neither - same second and same size on the second-granular sqlite backend - are outside the clause)',
+    'a 304 that rests on If-Modified-Since alone is rejected when the harness saw the stored bytes of that tile change '
+    'in a step that began (harness clock, whole seconds) after the presented date - whatever timestamp the cache reports '
+    'for the tile now (e.g. the old mtime of a shared single-colour file behind a symbolic link). This clause applies to '
+    'caches that report per-tile timestamps, i.e. not to link_single_color_images: hardlink: doc/configuration.rst states '
+    'that "all the linked files will have the same metadata, in particular the modification time", so the tile as stored '
+    'reports the first such tile\'s date and a presented date >= that Last-Modified legitimately matches (DESIGN 21); '
+    'those 304s are judged by the ordinary date clause and counted in class 304:hardlink-date-after-shared-mtime-but-before-rewrite',
+    'the stored tile is read back as FileCache reports it: bytes through the path, size and mtime of the directory entry '
+    '(lstat: a symbolic link has its own, a hard link shares the single-colour file\'s); new inodes get the harness clock '
+    'as mtime, a new hard link to an old inode keeps the old mtime as on a real file system',
     'findings listed as open in known_findings.d/C20.json are excluded by construction: the generator strips the '
     'conditional headers / skips the request for exactly those situations (counted in excluded_by_construction)',
 ]
@@ -75,7 +88,6 @@ SIG_FILL_META = 'C20/fill-without-no-store/meta-tile-flag-lost'
 SIG_FILL_WMTS_KML = 'C20/fill-without-no-store/wmts-kml-ignore-cacheable'
 SIG_PRE1970 = 'C20/304-unsound/ims-pre1970'
 SIG_WMSC_FILL_304 = 'C20/304-unsound/uncached-fill-tile/wmsc'
-SIG_HARDLINK_DATE = 'C20/304-unsound/modified-after-ims-date/hardlink'
 SIG_LINK_CREATE = 'C20/304-unsound/rewritten-by-this-request/linked-single-color'
 SIG_REWRITE_META = 'C20/304-unsound/rewritten-by-this-request/meta'
 SIG_REWRITE_SINGLE = 'C20/304-unsound/rewritten-by-this-request/single'
@@ -718,13 +730,6 @@ class World(object):
             if fam == 'wmsc' and (inm is not None or ims is not None) and SIG_WMSC_FILL_304 in self.open_sigs:
                 st_.excluded['conditional-fill-tile-request-via-wmsc'] += 1
                 inm = ims = None
-        if LINK_MODE.get(layer) == 'hardlink' and ims is not None and SIG_HARDLINK_DATE in self.open_sigs:
-            changed = self.content_changed.get(key)
-            o = self.obs[key]
-            if needs_upstream or (o is not None and changed is not None and o[2] < changed):
-                # the tile is (or may become) a hard link to a single-colour file that is older than the tile's rewrite
-                st_.excluded['if-modified-since-for-hardlinked-tile-older-than-its-rewrite'] += 1
-                ims = None
         if layer in LINK_MODE and inm == NONE_ETAG and needs_upstream and SIG_LINK_CREATE in self.open_sigs:
             st_.excluded['if-none-match-of-None-None-etag-on-request-that-creates-a-linked-tile'] += 1
             inm = None
@@ -917,7 +922,12 @@ class World(object):
                     case))
                 return out
         changed = self.content_changed.get(key)
-        if not by_etag and ims_t is not None and changed is not None and ims_t < changed:
+        if not by_etag and ims_t is not None and changed is not None and ims_t < changed \
+                and LINK_MODE.get(layer) == 'hardlink':
+            # documented: hard-linked tiles share the metadata of the first tile of that colour; the tile as stored
+            # reports that (older) Last-Modified and a date >= it matches - judged by the ordinary clause below
+            st_.classes['304:hardlink-date-after-shared-mtime-but-before-rewrite'] += 1
+        elif not by_etag and ims_t is not None and changed is not None and ims_t < changed:
             # "not modified since D", but the harness saw the stored bytes of this tile change at a time > D
             out.append(core.Violation(
                 'C20/304-unsound/modified-after-ims-date' + ('/' + LINK_MODE[layer] if layer in LINK_MODE else ''),
